@@ -122,6 +122,126 @@ def r_flow_serial(ctx) -> RuleResult:
 
 # --------------------------------------------------------------------------- R-HASH
 
+ORDER_FREE_CALLS = ("sorted", "len", "min", "max", "sum", "any", "all", "bool", "set", "frozenset")
+ORDER_KEEPING_CALLS = ("list", "tuple", "dict", "enumerate", "zip", "map", "filter", "iter", "reversed", "next")
+
+
+def _lookup_only(n, par, is_dict) -> bool:
+    """is the constant read at `n` used only in ways that cannot see its order (look-up by key, membership, size, sorted)?"""
+    p = par.get(id(n))
+    if isinstance(p, ast.Subscript) and p.value is n:
+        return is_dict
+    if isinstance(p, ast.Compare) and n in p.comparators and all(isinstance(o, (ast.In, ast.NotIn)) for o in p.ops):
+        return True
+    if isinstance(p, ast.Call) and n in p.args and isinstance(p.func, ast.Name) and p.func.id in ORDER_FREE_CALLS:
+        return True
+    if isinstance(p, ast.Attribute) and p.value is n and is_dict and p.attr in ("get", "__contains__", "__getitem__", "setdefault"):
+        return True
+    return False
+
+
+def hash_ordered_constants(ctx) -> dict:
+    """(module, NAME) -> reason, for module-level constants that keep an order (list, tuple, dict) and got it by visiting a
+    set of strings: a comprehension / list() / tuple() / dict() / join over a set-valued expression that is not
+    re-sorted, or built from another such constant.  Sets of numbers only are exempt (their order does not depend on the
+    hash seed)."""
+    if "hash_ordered_constants" in ctx.cache:
+        return ctx.cache["hash_ordered_constants"]
+    from ..model import ConstEval
+    repo = ctx.repo
+    out: dict = {}
+
+    def set_valued(m, e):
+        """None (not a set) / reason"""
+        syn = isinstance(e, (ast.Set, ast.SetComp)) or (isinstance(e, ast.Call) and isinstance(e.func, ast.Name) and e.func.id in ("set", "frozenset"))
+        try:
+            v = ConstEval(repo, m).eval(e, {})
+        except Exception:
+            v = None
+        if isinstance(v, (set, frozenset)):
+            if len(v) < 2 or not any(isinstance(x, str) for x in v):
+                return None
+            return f"`{short(e, 40)}` is a set of {len(v)} strings"
+        if v is None and syn:
+            return f"`{short(e, 40)}` is a set"
+        if isinstance(e, ast.Name):
+            r = repo.resolve(m, e.id)
+            if r and r[0] == "const" and (r[1].name, r[2]) in out:
+                return f"`{e.id}` ({out[(r[1].name, r[2])]})"
+        return None
+
+    def exposed(m, value):
+        """reason if evaluating `value` visits a set in its iteration order and keeps that order"""
+        par = {}
+        for n in ast.walk(value):
+            for c in ast.iter_child_nodes(n):
+                par[id(c)] = n
+
+        def consumed_free(n):
+            p = par.get(id(n))
+            return isinstance(p, ast.Call) and n in p.args and isinstance(p.func, ast.Name) and p.func.id in ORDER_FREE_CALLS
+        for n in ast.walk(value):
+            its = []
+            if isinstance(n, (ast.ListComp, ast.DictComp, ast.GeneratorExp)):
+                its = [(g.iter, n) for g in n.generators]
+            elif isinstance(n, ast.Call) and isinstance(n.func, ast.Name) and n.func.id in ORDER_KEEPING_CALLS:
+                its = [(a, n) for a in n.args]
+            elif isinstance(n, ast.Call) and isinstance(n.func, ast.Attribute) and n.func.attr in ("join", "fromkeys", "extend", "update"):
+                its = [(a, n) for a in n.args]
+            elif isinstance(n, ast.Starred) and isinstance(par.get(id(n)), (ast.List, ast.Tuple)):
+                its = [(n.value, par.get(id(n)))]
+            for it, site in its:
+                # views of a hash-ordered dict keep its order
+                base = it
+                while isinstance(base, ast.Call) and isinstance(base.func, ast.Attribute) and base.func.attr in ("items", "keys", "values") and not base.args:
+                    base = base.func.value
+                why = set_valued(m, base)
+                if why and not consumed_free(site):
+                    return why
+        return None
+    changed = True
+    rounds = 0
+    while changed and rounds < 6:
+        changed = False
+        rounds += 1
+        for m in repo.modules():
+            for st in m.tree.body:
+                tg, val = None, None
+                if isinstance(st, ast.Assign) and len(st.targets) == 1 and isinstance(st.targets[0], ast.Name):
+                    tg, val = st.targets[0].id, st.value
+                elif isinstance(st, ast.AnnAssign) and isinstance(st.target, ast.Name) and st.value is not None:
+                    tg, val = st.target.id, st.value
+                elif isinstance(st, ast.For):
+                    # a top-level loop over a set that fills module-level containers
+                    why = set_valued(m, st.iter)
+                    if why:
+                        for x in ast.walk(st):
+                            nm = None
+                            if isinstance(x, ast.Subscript) and isinstance(x.ctx, ast.Store) and isinstance(x.value, ast.Name):
+                                nm = x.value.id
+                            elif isinstance(x, ast.Call) and isinstance(x.func, ast.Attribute) and x.func.attr in ("append", "extend", "insert", "setdefault", "update") and isinstance(x.func.value, ast.Name):
+                                nm = x.func.value.id
+                            if nm and (m.name, nm) not in out and nm in m.assigns:
+                                out[(m.name, nm)] = why
+                                changed = True
+                    continue
+                if tg is None or (m.name, tg) in out:
+                    continue
+                v = repo.try_const(m, tg, None)
+                if isinstance(v, (set, frozenset)):
+                    continue          # a set again: whoever iterates it is looked at where that happens
+                why = exposed(m, val)
+                if why is None and isinstance(val, ast.Name):
+                    r = repo.resolve(m, val.id)
+                    if r and r[0] == "const" and (r[1].name, r[2]) in out:
+                        why = out[(r[1].name, r[2])]
+                if why:
+                    out[(m.name, tg)] = why
+                    changed = True
+    ctx.cache["hash_ordered_constants"] = out
+    return out
+
+
 
 def _set_exprs(fn):
     for n in own_walk(fn):
@@ -264,6 +384,29 @@ def r_hash(ctx) -> RuleResult:
                         res.inst(fi.fq, f"iteration over the set constant `{it.id}`", "fail")
                         res.fail(Finding("R-HASH", fi.module.rel, fi.qualname, norm(n if not isinstance(n, ast.For) else n.iter),
                                          f"`{it.id}` is a set of strings: the order in which its elements are visited (and so the order in which results are built) changes with the hash seed", line=it.lineno))
+    # module-level constants whose order was taken from a set of strings, and where they are read in order
+    hc = hash_ordered_constants(ctx)
+    n_consts = 0
+    for fi in all_public_closure(ctx):
+        shadow = set(assigned_names(fi.node)) | set(params_of(fi.node))
+        par = {}
+        for n in ast.walk(fi.node):
+            for c in ast.iter_child_nodes(n):
+                par[id(c)] = n
+        for n in own_walk(fi.node):
+            if not (isinstance(n, ast.Name) and isinstance(n.ctx, ast.Load) and n.id not in shadow):
+                continue
+            r = ctx.repo.resolve(fi.module, n.id)
+            if not r or r[0] != "const" or (r[1].name, r[2]) not in hc:
+                continue
+            n_consts += 1
+            why = hc[(r[1].name, r[2])]
+            v = ctx.repo.try_const(r[1], r[2], None)
+            ok = _lookup_only(n, par, isinstance(v, dict))
+            res.inst(fi.fq, f"use of `{n.id}` (its order depends on the hash seed: {why})", "ok" if ok else "fail", detail="looked up only" if ok else "read in order")
+            if not ok:
+                res.fail(Finding("R-HASH", fi.module.rel, fi.qualname, f"{n.id} <- {why}",
+                                 f"`{n.id}` is built at import time by visiting a set of strings ({why}): its order changes with the hash seed, and here it is read in that order", line=n.lineno))
     # fixture: the interpreter must see a planted list(set(..)) flow
     from ..model import Repo
     fx_src = "def _fx(xs):\n    u = list(set(xs))\n    return ''.join(str(x) for x in u)\n"
@@ -273,7 +416,13 @@ def r_hash(ctx) -> RuleResult:
     r = I.call_fn(fx.func("tucan._tsa_fixture_hash._fx"), [seq(sc(), frozenset(), "xs")])
     if HASH not in kinds(tt(r)):
         raise AnalysisError("R-HASH self-test: planted list(set(..)) flow not detected")
-    res.counts = {"set_constructions_outside_pipeline": n_sets, "fixture_detected": 1}
+    # fixture: a module-level table built by visiting a set of strings must be recognised
+    from types import SimpleNamespace
+    fx2 = Repo(ctx.repo.root, {**ctx.repo.overlay, "tucan/_tsa_fixture_hash2.py": "_S = frozenset(('mass', 'rad'))\n_T = {k: k for k in _S}\n_U = {k: k for k in sorted(_S)}\n"})
+    hc2 = hash_ordered_constants(SimpleNamespace(repo=fx2, cache={}))
+    if ("tucan._tsa_fixture_hash2", "_T") not in hc2 or ("tucan._tsa_fixture_hash2", "_U") in hc2:
+        raise AnalysisError("R-HASH self-test: planted module-level table over a set of strings not classified as expected")
+    res.counts = {"set_constructions_outside_pipeline": n_sets, "hash_ordered_constants": len(hc), "their_uses": n_consts, "fixture_detected": 1}
     return res
 
 
